@@ -347,11 +347,13 @@ func (x *Xlat) execStmt(st *State, fr *Frame, s ast.Stmt) *Outcomes {
 		return x.execSwitch(st, fr, s)
 	case *ast.DeferStmt:
 		fr.defers = append(fr.defers, s.Call)
+		// registration is path dependent: remember it in the state
+		st.env[fmt.Sprintf("defer$%d$%d", fr.id, len(fr.defers)-1)] = TTrue
 		return &Outcomes{normal: st}
 	case *ast.EmptyStmt:
 		return &Outcomes{normal: st}
 	case *ast.TypeSwitchStmt:
-		x.unsupp(s.Pos(), "type switch")
+		return x.execTypeSwitch(st, fr, s)
 	case *ast.GoStmt:
 		x.unsupp(s.Pos(), "go statement")
 	case *ast.SendStmt:
@@ -524,4 +526,37 @@ func (x *Xlat) execAssign(st *State, fr *Frame, out *Outcomes, s *ast.AssignStmt
 
 func (x *Xlat) src(n ast.Node) string {
 	return nodeText(x.prog.Fset, n)
+}
+
+// execTypeSwitch: dynamic types are not modelled; every clause is possible and the bound variable is an arbitrary value.
+func (x *Xlat) execTypeSwitch(st *State, fr *Frame, s *ast.TypeSwitchStmt) *Outcomes {
+	out := &Outcomes{}
+	info := fr.info()
+	if s.Init != nil {
+		o := x.execStmt(st, fr, s.Init)
+		x.absorb(out, o)
+		st = o.normal
+		if st == nil {
+			return out
+		}
+	}
+	x.models["type switch: every clause possible, bound variable arbitrary (dynamic types not modelled)"] = true
+	var normal *State
+	for _, c := range s.Body.List {
+		cc := c.(*ast.CaseClause)
+		stc := st.clone()
+		choice := x.ctx.Fresh("tsw", SBool)
+		stc.guard(choice)
+		if v, ok := info.Implicits[cc].(*types.Var); ok {
+			val := x.freshTyped(stc, "tswv", v.Type())
+			if val.Sort == SRef && len(cc.List) == 1 {
+				stc.assume(Not(Eq(val, TNull)))
+			}
+			x.declVar(stc, fr, v, val)
+		}
+		o := x.execBlock(stc, fr, cc.Body)
+		x.absorbSwitch(out, o, &normal)
+	}
+	out.normal = normal
+	return out
 }
